@@ -529,6 +529,26 @@ func TestVerifC17(t *testing.T) {
 				c.Tag("slow-network")
 				return true
 			}
+			if c.Idx%8 == 3 {
+				// the buffered wrapper: every order of start / stop / provide-once on one or two kept keys inside one batch
+				c.In = append(c.In, fmt.Sprintf("sp nkeys=8 r=%d interval=3600 swarm=%d workers=%s buffered=1 batch=8 strict=1", []int{2, 3}[r.Intn(2)], []int{16, 24}[r.Intn(2)], []string{"default", "2"}[r.Intn(2)]))
+				c.In = append(c.In, "start keys=0,3 force=0", "start keys=1,2,5 force=0", "advance cycles=1")
+				for b := 0; b < r.Range(3, 5); b++ {
+					k1, k2 := []int{1, 2, 5, 6}[r.Intn(4)], []int{1, 2, 5, 6}[r.Intn(4)]
+					var ops []string
+					for j := 0; j < r.Range(2, 6); j++ {
+						ops = append(ops, fmt.Sprintf("%c%d", "sSxoxo"[r.Intn(6)], []int{k1, k1, k2}[r.Intn(3)]))
+					}
+					c.In = append(c.In, "batch ops="+strings.Join(ops, ","))
+					if r.Bool() {
+						c.In = append(c.In, "advance cycles=1")
+					}
+				}
+				c.In = append(c.In, "advance cycles=1", "advance cycles=1")
+				c.Tag("nontrivial")
+				c.Tag("buffered-batches")
+				return true
+			}
 			strict := c.Idx%8 != 4
 			nkeys := r.Range(3, 8)
 			sizes := []int{3, 4, 5, 6, 10, 12, 16, 24, 32, 48}
@@ -546,7 +566,7 @@ func TestVerifC17(t *testing.T) {
 				c.Tag("relaxed")
 			}
 			c.In = append(c.In, fmt.Sprintf("sp nkeys=%d r=%d interval=3600 swarm=%d workers=%s buffered=%d batch=%d strict=%d", nkeys, rf,
-				sizes[r.Intn(len(sizes))], []string{"default", "1", "2", "8"}[r.Intn(4)], r.Intn(2), r.Range(1, 4), st))
+				sizes[r.Intn(len(sizes))], []string{"default", "1", "2", "8"}[r.Intn(4)], r.Intn(2), []int{1, 2, 3, 4, 8, 8}[r.Intn(6)], st))
 			if strict {
 				c.In = append(c.In, "start keys=0,3 force=0")
 			}
@@ -576,8 +596,17 @@ func TestVerifC17(t *testing.T) {
 					c.In = append(c.In, "once keys="+ids())
 				case x < 9:
 					var ops []string
-					for j := 0; j < r.Range(2, 6); j++ {
-						ops = append(ops, fmt.Sprintf("%c%d", "sSxo"[r.Intn(4)], id()))
+					if r.Bool() {
+						// dense: many operations on two keys, so that every order of start / stop / provide-once on one key
+						// meets inside one batch of the buffered wrapper
+						k1, k2 := id(), id()
+						for j := 0; j < r.Range(3, 8); j++ {
+							ops = append(ops, fmt.Sprintf("%c%d", "sSxoxo"[r.Intn(6)], []int{k1, k1, k2}[r.Intn(3)]))
+						}
+					} else {
+						for j := 0; j < r.Range(2, 6); j++ {
+							ops = append(ops, fmt.Sprintf("%c%d", "sSxo"[r.Intn(4)], id()))
+						}
 					}
 					c.In = append(c.In, "batch ops="+strings.Join(ops, ","))
 				case x < 11:
